@@ -406,6 +406,10 @@ func (l *PartitionLog) uploadFlush(ctx context.Context, artifact *SegmentArtifac
 	if err := g.Wait(); err != nil {
 		verifGate(ctx, "updone", l)
 		l.mu.Lock()
+		// The drained batches already have offsets assigned (and producers may be
+		// waiting in Flush for them): put them back at the head of the buffer so
+		// the next flush retries them instead of silently dropping them.
+		l.buffer.Prepend(l.flushingBatches)
 		l.flushing = false
 		l.flushingBatches = nil
 		l.flushCond.Broadcast()
